@@ -64,17 +64,6 @@ Proof.
   rewrite (cut_below_mono a b v H E) in Ha. discriminate.
 Qed.
 
-Lemma filter_all {A} (p : A -> bool) l : forallb p l = true -> filter p l = l.
-Proof.
-  induction l as [|x r IH]; cbn; intros H; [reflexivity|].
-  apply andb_true_iff in H. destruct H as [H1 H2]. rewrite H1, IH; auto.
-Qed.
-Lemma filter_none {A} (p : A -> bool) l : forallb (fun x => negb (p x)) l = true -> filter p l = [].
-Proof.
-  induction l as [|x r IH]; cbn; intros H; [reflexivity|].
-  apply andb_true_iff in H. destruct H as [H1 H2]. apply negb_true_iff in H1. rewrite H1, IH; auto.
-Qed.
-
 (* no lower bound admits the probe when every cut is above it *)
 Lemma den_tail_none bs v : all_bounds bs -> forallb (fun c => negb (cut_below v c)) bs = true ->
   den_tail bs v = false.
